@@ -153,6 +153,8 @@ def check(ck):
         ck.count("output_coercers_null_wrapped", sum(decorated), 6)
 
     with ck.rule("R5"):
+        from .c03 import list_guard
+        list_guard(ck, repo)
         for name in ("list_coercer_sequentially", "list_coercer_concurrently"):
             f = repo.func(LISTC, name)
             fv = FuncView(f)
@@ -287,6 +289,7 @@ def _error_records(ck, repo):
         k = list(kwargs(c))[0]
         want = lp[2] if k == "path" else f"[node.location for node in {lp[1]}]"
         ck.ob(f"located_error: attached {k} comes from the failing field", unparse(kwargs(c)[k]) == want, le, c, construct=f"located:attach:{k}")
+    _attach_table(ck, le, lv, parts)
     ap = [c for c in lv.calls("append")]
     rets = lv.returns()
     ok = len(ap) == 1 and len(rets) == 1 and unparse(rets[0].value) == f"MultipleException(exceptions={unparse(ap[0].func.value)})"
@@ -321,6 +324,61 @@ def _error_records(ck, repo):
     rp = ae.positional_params[1]
     ok = len(src) == 1 and ifexp_parts(src[0].value) == (f"isinstance({rp}, MultipleException)", f"{rp}.exceptions", f"[{rp}]")
     ck.ob("add_error unpacks a MultipleException into its members", ok, ae, src[0] if src else ae.node, construct="add_error:unpack")
+
+
+def _attach_table(ck, le, lv, parts):
+    """located_error attaches the failing field's path / locations exactly when the error carries none yet:
+    neither as its own attribute nor already attached by an inner (closer) field.  Otherwise an error
+    bubbling through non-null ancestors would be re-pathed at each level and end up pointing at the
+    ancestor that was nulled instead of the field that failed."""
+    import itertools
+    by_kw = {list(kwargs(c))[0]: c for c in parts if kwargs(c)}
+    if set(by_kw) != {"path", "locations"}:
+        return
+    lp = le.positional_params  # original_error, nodes, path
+    for what, given_name, attr in (("path", lp[2], "path"), ("locations", lp[1], "locations")):
+        atoms = Atoms({
+            given_name: "given",
+            f"hasattr(graphql_error, '{attr}')": "has_attr",
+            f"graphql_error.{attr}": "attr_truthy",
+            "isinstance(graphql_error.coerce_value, partial)": "is_partial",
+            f"'{attr}' in graphql_error.coerce_value.keywords": "kw",
+        })
+        target = lv.cfg_node(by_kw[what]).id
+        other = lv.cfg_node(by_kw["path" if what == "locations" else "locations"]).id
+        n = 0
+        for g, ha, at, ip, kw in itertools.product([False, True], repeat=5):
+            if kw and not ip and what == "path":
+                continue
+            if at and not ha:
+                continue
+            val = {"given": g, "has_attr": ha, "attr_truthy": at, "is_partial": ip, "kw": kw}
+            seen = set()
+            for tr in lv.cfg.simulate(lambda nd, env: evaluate(nd.ast, env, val, atoms)):
+                if not any(x.kind == "for" for x in tr.nodes) or not any(x.kind == "stmt" and isinstance(x.ast, ast.Expr) and "append" in x.text() for x in tr.nodes):
+                    continue  # the loop body did not run on this path
+                if what == "locations" and not ip and kw and other not in tr.path:
+                    continue  # `kw` without a partial is only feasible once the path was attached on this very call
+                seen.add(target in tr.path)
+            want = g and not (ha and at) and not ((ip or (what == "locations" and None)) and kw) if what == "path" else None
+            if what == "path":
+                n += 1
+                ck.ob(f"located_error attaches the path iff one is given, the error has none of its own and none was attached before {val}", seen == {want}, le, by_kw[what],
+                      construct="attach:path:" + "".join(str(int(v)) for v in val.values()),
+                      detail=f"attached on explored paths: {sorted(seen)}; specification: {want}" + atoms.note())
+            else:
+                # for locations the partial may have been created by the path attachment just before: then kw decides alone
+                ok = True
+                if not g or (ha and at):
+                    ok = seen <= {False}
+                elif not kw:
+                    ok = seen == {True}
+                elif ip:
+                    ok = seen == {False}
+                n += 1
+                ck.ob(f"located_error attaches the locations iff nodes are given, the error has none of its own and none were attached before {val}", ok and bool(seen), le, by_kw[what],
+                      construct="attach:locations:" + "".join(str(int(v)) for v in val.values()), detail=f"attached on explored paths: {sorted(seen)}" + atoms.note())
+        ck.counts[f"attach_{what}_valuations"] = n
 
 
 def _handler_census(ck, repo):
